@@ -77,12 +77,14 @@ def run_brem_energy(ctx, exe, quick):
             # (up to percent level at E ~ 1e8 MeV, where d_rho ~ 1e8 MeV^2 >> cut^2): recorded as a candidate finding
             # (reported to the coordinator; no signature in known_findings.json), anything larger is a VIOLATION
             amp = 1 + a["dc"] / (lo * lo)
-            if (lo - a["e"]) / lo <= 4 * 2.0 ** -52 * amp:
+            if (c.model == "rbenergy" and (lo - a["e"]) / lo <= 8 * 2.0 ** -52 * amp and a["e"] >= lo * (1 - 1e-3)
+                    and any(x <= 1e-15 for x in c.u[:a["draws"]])):
                 ctx.count("brem-energy:below-cut-by-rounding-of-density-correction")
-                ctx.coverage.setdefault("brem_energy_below_cut_by_rounding", [])
-                if len(ctx.coverage["brem_energy_below_cut_by_rounding"]) < 3:
-                    ctx.coverage["brem_energy_below_cut_by_rounding"].append(
-                        {"input": c.replay(a["draws"]), "photon_energy": a["e"], "cut": lo, "density_correction": a["dc"]})
+                if ctx.dist.get("brem-energy:below-cut-by-rounding-of-density-correction", 1) <= 1:
+                    ctx.violation("finding", "detail::RBEnergySampler: photon energy %.17g below the gamma cut %.17g by rounding "
+                                  "of sqrt(esq - density_corr), density_corr = %.6g" % (a["e"], lo, a["dc"]),
+                                  {"input": c.replay(a["draws"]), "impl": a},
+                                  signature="relbrem-photon-below-cut-by-density-correction-rounding")
             else:
                 bad = "photon energy below the production cut"
         elif a["e"] > hi * (1 + 1e-12):
